@@ -50,13 +50,21 @@ def oid_tuple(o) -> tuple:
     return tuple(int(p) for p in s.split(".")) if s else ()
 
 
+class Unreadable(Exception):
+    """the API handed out an object whose value cannot be read (values are decoded lazily: the exception belongs to the
+    code under test, not to the harness)"""
+
+
 def observe(x):
     """(type name, python value) of an object returned by the raw API, with
     OIDs normalised to integer tuples."""
     name = type(x).__name__
-    v = x.value
-    if name == "ObjectIdentifier":
-        v = oid_tuple(x)
+    try:
+        v = x.value
+        if name == "ObjectIdentifier":
+            v = oid_tuple(x)
+    except Exception as e:  # noqa
+        raise Unreadable("reading .value of the returned %s object raised %s: %s" % (name, type(e).__name__, e)) from e
     return name, v
 
 
